@@ -56,6 +56,8 @@ mod connectivity_state;
 mod ip_vote;
 mod query_info;
 mod test;
+#[cfg(feature = "verif-hooks")]
+pub mod verif_hooks;
 
 /// The number of distances (buckets) we simultaneously request from each peer.
 /// NOTE: This must not be larger than 127.
@@ -1702,4 +1704,163 @@ enum ConnectionStatus {
     PongReceived,
     /// The node has disconnected
     Disconnected,
+}
+
+// ------------------------------------------------------------------------------------------------
+// Verification hooks (cargo feature `verif-hooks`): add-only, unused by the crate itself. The public
+// facades live in `src/verif/vote.rs` and `src/verif/talk.rs`; the items below exist because the
+// fields and functions they touch are private to this module.
+#[cfg(feature = "verif-hooks")]
+pub(crate) use ip_vote::IpVote as VerifIpVote;
+
+#[cfg(feature = "verif-hooks")]
+impl TalkRequest {
+    /// A request object exactly as `handle_rpc_request` builds it, around a channel end the
+    /// caller provides.
+    pub(crate) fn verif_new(
+        id: RequestId,
+        node_address: NodeAddress,
+        protocol: Vec<u8>,
+        body: Vec<u8>,
+        sender: mpsc::UnboundedSender<HandlerIn>,
+    ) -> Self {
+        TalkRequest {
+            id,
+            node_address,
+            protocol,
+            body,
+            sender: Some(sender),
+        }
+    }
+}
+
+/// What [`Service::verif_new`] hands back besides the service: the receiving end of the channel to
+/// the handler, the sending end of the channel from the handler and the event stream.
+#[cfg(feature = "verif-hooks")]
+pub(crate) type VerifServiceParts = (
+    Service,
+    mpsc::UnboundedReceiver<HandlerIn>,
+    mpsc::Sender<HandlerOut>,
+    mpsc::Receiver<Event>,
+);
+
+#[cfg(feature = "verif-hooks")]
+impl Service {
+    /// A service without a handler task: the channels to and from the handler are held by the
+    /// caller (same construction as `build_non_handler_service` of the unit tests). The service's
+    /// `start` loop is not run; the caller invokes the message handlers directly.
+    pub(crate) fn verif_new(
+        local_enr: Arc<RwLock<Enr>>,
+        enr_key: Arc<RwLock<CombinedKey>>,
+        config: Config,
+        ip_mode: IpMode,
+        event_capacity: usize,
+    ) -> VerifServiceParts {
+        let ip_votes = if config.enr_update {
+            Some(IpVote::new(
+                config.enr_peer_update_min,
+                config.vote_duration,
+            ))
+        } else {
+            None
+        };
+        let (handler_send, handler_recv_fake) = mpsc::unbounded_channel();
+        let (handler_send_fake, handler_recv) = mpsc::channel(1000);
+        let kbuckets = Arc::new(RwLock::new(KBucketsTable::new(
+            local_enr.read().node_id().into(),
+            std::time::Duration::from_secs(60),
+            config.incoming_bucket_limit,
+            None,
+            None,
+        )));
+        let (_discv5_send, discv5_recv) = mpsc::channel(30);
+        let (_exit_send, exit) = oneshot::channel();
+        let (event_send, event_recv) = mpsc::channel(event_capacity);
+        let connectivity_state = ConnectivityState::new(config.auto_nat_listen_duration);
+        let service = Service {
+            local_enr,
+            enr_key,
+            kbuckets,
+            queries: QueryPool::new(config.query_timeout),
+            active_requests: Default::default(),
+            active_nodes_responses: HashMap::new(),
+            ip_votes,
+            handler_send,
+            handler_recv,
+            handler_exit: None,
+            peers_to_ping: HashSetDelay::new(config.ping_interval),
+            discv5_recv,
+            event_stream: Some(event_send),
+            exit,
+            config,
+            ip_mode,
+            connectivity_state,
+        };
+        (service, handler_recv_fake, handler_send_fake, event_recv)
+    }
+
+    pub(crate) fn verif_kbuckets(&self) -> Arc<RwLock<KBucketsTable<NodeId, Enr>>> {
+        self.kbuckets.clone()
+    }
+
+    pub(crate) fn verif_local_enr(&self) -> Enr {
+        self.local_enr.read().clone()
+    }
+
+    pub(crate) fn verif_is_dual_stack(&self) -> bool {
+        matches!(self.ip_mode, IpMode::DualStack)
+    }
+
+    /// `handle_rpc_request` for a TALKREQ.
+    pub(crate) fn verif_handle_talk_request(
+        &mut self,
+        node_address: NodeAddress,
+        id: RequestId,
+        protocol: Vec<u8>,
+        request: Vec<u8>,
+    ) {
+        self.handle_rpc_request(
+            node_address,
+            Request {
+                id,
+                body: RequestBody::Talk { protocol, request },
+            },
+        );
+    }
+
+    /// `handle_ip_vote_from_pong`, the function the PONG branch of `handle_rpc_response` calls.
+    pub(crate) fn verif_handle_ip_vote_from_pong(&mut self, node_id: NodeId, socket: SocketAddr) {
+        self.handle_ip_vote_from_pong(node_id, socket);
+    }
+
+    /// The PONG branch of `handle_rpc_response`: registers an active PING request (no callback, as
+    /// the service's own keep-alive pings) to `contact` and delivers the matching PONG.
+    pub(crate) fn verif_handle_pong_response(
+        &mut self,
+        contact: NodeContact,
+        id: RequestId,
+        enr_seq: u64,
+        ip: IpAddr,
+        port: std::num::NonZeroU16,
+    ) {
+        let node_address = contact.node_address();
+        self.active_requests.insert(
+            id.clone(),
+            ActiveRequest {
+                contact,
+                request_body: RequestBody::Ping {
+                    enr_seq: self.local_enr.read().seq(),
+                },
+                query_id: None,
+                callback: None,
+            },
+        );
+        self.handle_rpc_response(
+            node_address,
+            Response {
+                id,
+                body: ResponseBody::Pong { enr_seq, ip, port },
+            },
+        );
+    }
 }
